@@ -78,6 +78,10 @@ namespace rkcommon {
     {
       consume(s, '<');
       consume(s, '!');
+      // skip the two dashes of the opening "<!--", so that they are not taken
+      // for (part of) the closing "-->" of comments like "<!-->-->"
+      if (s[0] == '-' && s[1] == '-')
+        s += 2;
       while (!((s[0] == 0) || (s[0] == '-' && s[1] == '-' && s[2] == '>')))
         ++s;
       consume(s, '-');
